@@ -174,6 +174,16 @@ def read_windows(bs, acc, ctx, srcbits):
         rts = [('bytes', lambda: c(bytes=payload, offset=k, length=n), f"bitstring.{cls}(bytes={payload!r}, offset={k}, length={n})"),
                ('bytearray', lambda: c(bytes=bytearray(payload), length=n, offset=k), f"bitstring.{cls}(bytes=bytearray({payload!r}), length={n}, offset={k})"),
                ('bytesio', lambda: c(io.BytesIO(payload), offset=k, length=n), f"bitstring.{cls}(io.BytesIO({payload!r}), offset={k}, length={n})")]
+        if payload and len(payload) % 2 == 0:
+            # a memoryview whose items are wider than a byte: offsets and lengths still count bits of the underlying bytes
+            rts.append(('memoryview-H', lambda: c(bytes=memoryview(payload).cast('H'), offset=k, length=n), f"bitstring.{cls}(bytes=memoryview({payload!r}).cast('H'), offset={k}, length={n})"))
+            if valid and k + n == N:
+                rts.append(('memoryview-H-off', lambda: c(bytes=memoryview(payload).cast('H'), offset=k), f"bitstring.{cls}(bytes=memoryview({payload!r}).cast('H'), offset={k})"))
+        if payload and len(payload) % 4 == 0:
+            rts.append(('memoryview-array-I', lambda: c(bytes=memoryview(__import__('array').array('I', payload)), offset=k, length=n),
+                        f"bitstring.{cls}(bytes=memoryview(__import__('array').array('I', {payload!r})), offset={k}, length={n})"))
+        if payload:
+            rts.append(('memoryview-strided', lambda: c(bytes=memoryview(R.interleave(payload))[::2], offset=k, length=n), f"bitstring.{cls}(bytes=memoryview({R.interleave(payload)!r})[::2], offset={k}, length={n})"))
         if k == 0:
             rts.append(('bytes-len', lambda: c(bytes=payload, length=n), f"bitstring.{cls}(bytes={payload!r}, length={n})"))
         if valid and k + n == N:
